@@ -88,6 +88,7 @@ pub fn parse_msg(t: &str) -> Option<AnyMessage> {
         ["cs.done"] => AnyMessage::ChainSync(cs::Message::Done),
         ["tx.init"] => AnyMessage::TxSubmission(tx::Message::Init),
         ["tx.reqids"] => AnyMessage::TxSubmission(tx::Message::RequestTxIds(true, 0, 10)),
+        ["tx.reqidsnb"] => AnyMessage::TxSubmission(tx::Message::RequestTxIds(false, 0, 10)),
         ["tx.replyids"] => AnyMessage::TxSubmission(tx::Message::ReplyTxIds(vec![])),
         ["tx.reqtxs"] => AnyMessage::TxSubmission(tx::Message::RequestTxs(vec![])),
         ["tx.replytxs", n] => AnyMessage::TxSubmission(tx::Message::ReplyTxs((0..nat(n)?).map(|i| tx::EraTxBody(6, vec![i as u8])).collect())),
@@ -142,7 +143,7 @@ pub fn show_msg(m: &AnyMessage, tbl: bool) -> String {
         AnyMessage::ChainSync(cs::Message::IntersectNotFound(_)) => "cs.notfound".into(),
         AnyMessage::ChainSync(cs::Message::Done) => "cs.done".into(),
         AnyMessage::TxSubmission(tx::Message::Init) => "tx.init".into(),
-        AnyMessage::TxSubmission(tx::Message::RequestTxIds(..)) => "tx.reqids".into(),
+        AnyMessage::TxSubmission(tx::Message::RequestTxIds(b, ..)) => if *b { "tx.reqids".into() } else { "tx.reqidsnb".into() },
         AnyMessage::TxSubmission(tx::Message::ReplyTxIds(_)) => "tx.replyids".into(),
         AnyMessage::TxSubmission(tx::Message::RequestTxs(_)) => "tx.reqtxs".into(),
         AnyMessage::TxSubmission(tx::Message::ReplyTxs(l)) => format!("tx.replytxs:{}", l.len()),
